@@ -60,7 +60,7 @@ fn collect(kind: &str, seed: u64, n: u64, w: u64, pristine: Option<&str>, exe: &
                     m.insert(idx, sig);
                 }
             } else if l.starts_with("{\"found\"") {
-                return Err(format!("a worker reported a violation during the determinism self-test: {}", crate::rng::head(l, 300)));
+                return Err(format!("a worker reported a violation during the determinism self-test: {}", crate::rng::head(&l, 300)));
             }
         }
     }
